@@ -170,10 +170,23 @@ func genValue(t *rapid.T, kind string, bits int, label string) string {
 
 // tableValues returns the deterministic per-kind value list of the enumeration checks: the edge
 // table in the quick tier, plus rapid examples (fixed seeds) in the thorough tier.
-func tableValues(kind string, bits int) []string {
+//
+// Quick tier: at most quickTable values per option; the window into the edge table rotates
+// with the option index so that all edge values are used across the options of a kind.
+func tableValues(option int, kind string, bits int) []string {
 	out := append([]string{}, edgeValues(kind, bits)...)
 	if kind == kBool {
 		return out
+	}
+	if !world.Thorough() {
+		if len(out) <= quickTable {
+			return out
+		}
+		win := make([]string, 0, quickTable)
+		for j := 0; j < quickTable; j++ {
+			win = append(win, out[(option*quickTable+j)%len(out)])
+		}
+		return win
 	}
 	n := world.Scale(0, 200) - len(out)
 	g := rapid.Custom(func(t *rapid.T) string { return genValue(t, kind, bits, "v") })
@@ -285,6 +298,8 @@ func sameValue(kind, a, b string) bool {
 	}
 	return false
 }
+
+const quickTable = 20
 
 var plainSafe = regexp.MustCompile(`^[A-Za-z/][A-Za-z0-9_./-]*$`)
 
